@@ -408,6 +408,34 @@ class Fuzz:
             if ctx.out_of_time():
                 break
 
+        # ---- well-formed files whose structure differs from every fixture: upload -> index -> serve
+        from dlv import synth
+        variants = sorted(synth.legal_variants().items())
+        for k in range(ctx.scale(1, len(variants))):
+            vname, data = variants[(ctx.shard + ctx.seed + k) % len(variants)]
+            name = f'lv{ctx.shard}_{vname}'
+            rp = {'b': {'upload': f'legal-variant:{vname}'}}
+            res.count('b.legal_variant_uploads')
+            r = self._guarded(lambda: execute(media, h2, op_upload(sid, f'{name}.mp4', data)), 'upload', rp)
+            if r is None:
+                continue
+            mfid = (r.get_json(silent=True) or {}).get('pk')
+            res.case(f'B|upload|legal-variant:{vname}|{r.status_code}')
+            if mfid is None:
+                res.violation(f'well-formed-upload-refused-{vname}', f'upload of {vname} -> {r.status_code} {r.data[:120]!r}', rp)
+                continue
+            r = self._guarded(lambda: execute(media, h2, op_index(mfid)), 'index', rp)
+            if r is not None and r.status_code == 200:
+                js = r.get_json(silent=True) or {}
+                if js.get('errors'):
+                    res.violation(f'well-formed-file-not-indexed-{vname}', f'index of {vname}: {js["errors"]}', rp)
+            for url in (f'/stream/{sid}?ajax=1', f'/stream/{sid}', f'/stream/{sid}/{mfid}/segments?ajax=1',
+                        f'/stream/{sid}/{mfid}', f'/dash/vod/fz{ctx.shard}/{name}/1.mp4', f'/dash/vod/fz{ctx.shard}/{name}/init.mp4',
+                        f'/stream/{sid}/{mfid}/segment/1', f'/dash/vod/fz{ctx.shard}/hand_made.mpd?drm=all'):
+                self.request('GET', url, 'b', f'after upload of legal variant {vname}', rp, client=media.client)
+            if ctx.out_of_time():
+                break
+
     def judge_parse(self, cname: str, op: str, lazy: bool, mutated: bytes) -> None:
         from dashlive.mpeg import mp4
         from dashlive.utils.buffered_reader import BufferedReader
